@@ -726,6 +726,17 @@ def gen_overlap(rng):
         failing = b.payload(rng.choice(["asyncio", "threading"]), [["wait", "fail"], ["raise", 0]])
         b.main.append(["adopt", 0, failing])
         h += [["sleep", 0.25], ["set", "fail"]]
+    elif rng.random() < 0.4:
+        # an outside thread executes a thread payload that blocks for a long time while coroutine payloads submit
+        # work from inside their loops (adopt, a new service): blocking inside thread payloads stalls nobody
+        blk = b.payload("threading", [["step"], ["block", 1.4]])
+        b.helpers.append([["wait_running", 0], ["sleep", 0.1], ["execute", 0, blk]])
+        for fl in ("asyncio", "trio"):
+            w = b.payload(rng.choice(FLS), [["step"], ["forever"]] if fl else [])
+            sid = b.service(rng.choice(["asyncio", "trio"]), [["step"], ["forever"]])
+            sub = b.payload(fl, [["sleep", 0.3], ["adopt", 0, w], ["sleep", 0.05], ["service", sid], ["forever"]])
+            b.main.append(["adopt", 0, sub])
+        h += [["sleep", 1.9 * TIME_SCALE[0]], ["shutdown", 0]]
     else:
         h += [["sleep", SETTLE + 0.3], ["mark", "settled"], ["shutdown", 0]]
     b.main.append(["accept", 0])
